@@ -6,6 +6,8 @@ package main
 // (mod 2^N), so Go semantics are exact and no Int<->BitVec bridge is needed.
 
 import (
+	"strconv"
+	"runtime"
 	"bytes"
 	"context"
 	"fmt"
@@ -492,7 +494,22 @@ var solvers = []solverSpec{
 	}},
 }
 
-var procSem = make(chan struct{}, 16)
+// procSem bounds the number of solver processes running at once: the number of CPUs, or GOVC_PROCS when several
+// checks run side by side (the corpus runners set it so that the machine is not oversubscribed; solver time limits
+// are per process run time, so queueing does not eat into them).
+var procSem = make(chan struct{}, numProcs())
+
+func numProcs() int {
+	if v := os.Getenv("GOVC_PROCS"); v != "" {
+		if n, err := strconv.Atoi(v); err == nil && n >= 1 {
+			return n
+		}
+	}
+	if n := runtime.NumCPU(); n >= 1 {
+		return n
+	}
+	return 4
+}
 
 var workDir string
 
